@@ -146,6 +146,15 @@ def check_index_spaces(chk, tus, it, tabs):
                'element segment [4,1,2] stores %r' % (stores,), site + ':elements')
     chk.expect(re.search(r'\bf2\(i\);', fns.get('modInstantiate', '')) is not None, 'R04.2', 'start-identifier',
                'start function 2 is called as %r' % fns.get('modInstantiate', '')[-60:], site + ':start')
+    # the element stores must actually run at instantiation, for a defined and for an imported table
+    for table in ('defined', 'imported'):
+        fns_t = c06.split_functions(c06.inits_text(it2, c06.shape(it2, mem='none', table=table, nglobals=0, gimports=0, data=(), elems=1, start=False)))
+        n_stores = len(re.findall(r'data\[offset\s*\+\s*\d+\]\s*=\s*\(wasmFunc\)', fns_t.get('modInitTables', '')))
+        called = re.search(r'\bmodInitTables\s*\(', fns_t.get('modInstantiate', '')) is not None
+        chk.expect(n_stores == 3 and called, 'R04.4', 'element-stores-run:' + table,
+                   'module with a %s table and one element segment of 3 functions: InitTables contains %d stores and Instantiate %s it - '
+                   'call_indirect through an initialised entry would reach whatever the table held before'
+                   % (table, n_stores, 'calls' if called else 'does NOT call'), 'wasmCWriteInstantiateFunction:init-tables')
     # the import spelling must be the symbol the WASI host library actually defines
     from .. import wasi as W
     wtu = W.wasi_tu()
